@@ -31,8 +31,10 @@ ASSUMPTIONS = [
     "trigger temperature below the initial temperature; 1D bound under the CFL hypothesis 0 <= Fo <= 1/2",
     "every step recorded (<= 10 000 steps); continuous comparisons rtol 1e-9; step indices exactly",
 ]
-RULE = ("0D, 1D (shelf, VISF) and 2D programs from a calibrated table (<= 10 000 steps) with cnTemp in "
-        "{-3,-5,-8,-12} C below the start temperature, optional hold; non-trivial = run completed")
+RULE = ("boundary inputs in every dimensionality (cnTemp = 0 and 0.0; solution.T_eq = 3.8 and -2.0; VISF with the "
+        "vacuum applied from 0.002 h so that the evaporating top is the coldest point at the trigger) plus 0D, 1D "
+        "(shelf, VISF) programs from a calibrated table (<= 10 000 steps) with cnTemp in {-3,-5,-8,-12,0,0.0} C below the "
+        "start temperature, optional hold; non-trivial = run completed")
 EXPLANATION = ("Lean theorems about the controlled-nucleation branch of the cooling loop + differential check against "
                "Snowing.run(); the trigger condition re-evaluated on the real recorded fields")
 PARALLEL = True
@@ -171,7 +173,7 @@ def nontrivial(case, impl):
 
 
 # ---------------------------------------------------------------------------
-CNS = [-3.0, -5.0, -8.0, -12.0]
+CNS = [-3.0, -5.0, -8.0, -12.0, 0, 0.0]
 
 
 def case_0d(rng):
@@ -209,8 +211,48 @@ def case_2d(rng):
                 rate=0.5, holds=None, cnTemp=rng.choice(CNS), Frand=None)
 
 
+def _p1d(h, k, rate, steps, **kw):
+    dt = su.dt_1d_default(h)
+    c = dict(dim="1D", config="shelf", height=h, k_s0=k, t_tot=steps * dt, start=20, stop=-50, rate=rate, holds=None,
+             cnTemp=-5.0, Frand=None)
+    c.update(kw)
+    return c
+
+
+def _visf_early(steps_dt):
+    """vacuum from t = 0.002 h on: the evaporating top surface is the coldest point when cnTemp is reached"""
+    return {"VISF": {"t_vac_start": 0.002, "t_vac_duration": 0.05, "p_vac": 100}}
+
+
+def special_cases(tier):
+    """boundary inputs of the trigger: cnTemp = 0 / 0.0 (falsy), T_eq != 0 (threshold is cnTemp + 273.15, not
+    cnTemp + T_m), VISF with an early vacuum window (coldest point at the top, not at the shelf) - in every
+    dimensionality"""
+    p0 = dict(dim="0D", config="shelf", k_s0=100, t_tot=3000, start=20, stop=-50, rate=0.1, holds=None, Frand=None)
+    out = [dict(p0, cnTemp=0), dict(p0, cnTemp=0.0, start=12.5, k_s0=50)]
+    for teq in (3.8, -2.0):
+        out.append(dict(p0, cnTemp=-5.0, yaml={"solution": {"T_eq": teq}}))
+        out.append(_p1d(0.03, 2000, 0.5, 5600, cnTemp=-5.0, yaml={"solution": {"T_eq": teq}}))
+    out.append(_p1d(0.03, 400, 0.5, 6800, cnTemp=0))
+    out.append(_p1d(0.05, 2000, 0.5, 5000, cnTemp=0.0))
+    out.append(_p1d(0.03, 400, 0.5, 6800, cnTemp=-5.0, config="VISF", yaml=_visf_early(0)))
+    out.append(_p1d(0.05, 400, 0.05, 7000, cnTemp=-8.0, config="VISF", yaml=_visf_early(0)))
+    h = 0.05
+    dt2 = su.dt_2d_default(h, h)
+    p2 = dict(dim="2D", height=h, diameter=h, k_s0=2000, t_tot=9500 * dt2, start=20, stop=-50, rate=0.5, holds=None,
+              Frand=None)
+    out.append(dict(p2, config="shelf", cnTemp=-5.0, yaml={"solution": {"T_eq": 3.8}}))
+    out.append(dict(p2, config="VISF", cnTemp=0.0, yaml=_visf_early(0)))
+    if tier != "quick":
+        out.append(dict(p2, config="shelf", cnTemp=0, yaml={"solution": {"T_eq": -2.0}}))
+        out.append(dict(p2, config="VISF", cnTemp=-8.0, yaml=_visf_early(0)))
+    return out
+
+
 def cases(rng, tier):
-    n0, n1, nv, n2 = (24, 12, 2, 2) if tier == "quick" else (300, 100, 16, 8)
+    n0, n1, nv, n2 = (20, 8, 2, 0) if tier == "quick" else (300, 100, 16, 8)
+    for c in special_cases(tier):
+        yield c
     for _ in range(n1):
         yield case_1d(rng)
     for _ in range(nv):
